@@ -106,6 +106,7 @@ func C16Config(prop string, r *Rand, tier string) map[string]int64 {
 	c["w_time"] = int64(r.Range(8, 25))
 	c["w_rpcfault"] = int64(r.Range(0, 6))
 	c["w_crash"] = int64(r.Range(0, 4))
+	c["w_crashat"] = int64(r.Range(0, 4))
 	c["w_l1"] = int64(r.Range(2, 10)) // L1 info syncer catches up
 	c["big_jumps"] = 0
 	if r.Bool(35) {
@@ -373,9 +374,21 @@ func runC16(tr *Trace, sc *Script, rec *Recorder, scratch string) *Violation {
 
 	crashed := false
 	maxHead := uint64(0)
+	// crash images (as in C06): the node dies at the instant one of its two databases runs its k-th statement
+	imgDir := filepath.Join(dir, "crashimg")
+	imgTaken, imgArmed := false, ""
+	takeImage := func() {
+		os.RemoveAll(imgDir)
+		_ = CopyDBFiles(storePath, filepath.Join(imgDir, filepath.Base(storePath)))
+		_ = CopyDBFiles(rdPath, filepath.Join(imgDir, filepath.Base(rdPath)))
+		imgTaken = true
+	}
 	gen := func(r *Rand) (Op, bool) {
 		labels := w.ParkedLabels()
-		wts := []int{int(cfg["w_mine"]), int(cfg["w_fork"]), int(cfg["w_fin"]), int(cfg["w_rel"]), int(cfg["w_time"]), int(cfg["w_rpcfault"]), int(cfg["w_crash"]), int(cfg["w_l1"])}
+		wts := []int{int(cfg["w_mine"]), int(cfg["w_fork"]), int(cfg["w_fin"]), int(cfg["w_rel"]), int(cfg["w_time"]), int(cfg["w_rpcfault"]), int(cfg["w_crash"]), int(cfg["w_l1"]), int(cfg["w_crashat"])}
+		if imgArmed != "" {
+			wts[8] = 0
+		}
 		if len(labels) == 0 {
 			wts[3], wts[5] = 0, 0
 			wts[4] += 30
@@ -413,13 +426,50 @@ func runC16(tr *Trace, sc *Script, rec *Recorder, scratch string) *Violation {
 			return Op{K: "rel", S: labels[r.Intn(len(labels))], A: []int64{fm}}, true
 		case 6:
 			return Op{K: "crash"}, true
+		case 8:
+			which, k := int64(r.Intn(2)), 1+r.Intn(8)
+			if r.Bool(30) {
+				k = 1 + r.Intn(40)
+			}
+			if r.Bool(35) {
+				which, k = 2, 1+r.Intn(3) // at the k-th DELETE of the syncer's database: a rewind in progress
+			}
+			return Op{K: "crashat", A: []int64{which, int64(k)}}, true
 		default:
 			return Op{K: "l1sync", A: []int64{int64(r.Range(1, 6))}}, true
 		}
 	}
 	apply := func(op Op) *Violation {
 		rec.Stats.Inc("steps")
+		if imgTaken {
+			// the node died when the image was taken: only what both database files held at that instant survives
+			imgTaken = false
+			DisarmFault(imgArmed)
+			imgArmed = ""
+			stop()
+			_ = CopyDBFiles(filepath.Join(imgDir, filepath.Base(storePath)), storePath)
+			_ = CopyDBFiles(filepath.Join(imgDir, filepath.Base(rdPath)), rdPath)
+			crashed = true
+			rec.Stats.Inc("crash_restart")
+			rec.Stats.Inc("crash_at_statement_image")
+			if v := start(); v != nil {
+				return v
+			}
+			examined, _ = node.syncer.GetLastProcessedBlock(bg)
+			go node.syncer.Start(node.ctx) //nolint:errcheck
+			w.Quiesce()
+			rec.Step("XI")
+		}
 		switch op.K {
+		case "crashat":
+			if imgArmed == "" {
+				imgArmed = storePath
+				if op.Arg(0) == 1 {
+					imgArmed = rdPath
+				}
+				ArmFault(imgArmed, &FaultPlan{YieldAt: int(op.Arg(1)), Yield: takeImage, YieldOnDelete: op.Arg(0) == 2})
+				rec.Step("XA")
+			}
 		case "mine":
 			r := NewRand(uint64(op.Arg(0)))
 			chain.snapshotPrev()
@@ -503,6 +553,10 @@ func runC16(tr *Trace, sc *Script, rec *Recorder, scratch string) *Violation {
 			w.Advance(time.Duration(op.Arg(0)) * time.Millisecond)
 			rec.Step("T")
 		case "crash":
+			if imgArmed != "" {
+				DisarmFault(imgArmed)
+				imgArmed, imgTaken = "", false
+			}
 			stop()
 			crashed = true
 			rec.Stats.Inc("crash_restart")
@@ -520,10 +574,15 @@ func runC16(tr *Trace, sc *Script, rec *Recorder, scratch string) *Violation {
 			rec.Step("L")
 		}
 		maxHead = max(maxHead, chain.HeadNum())
+		// the harness's own reads are not statements of the node: they do not count towards an armed crash point
+		harnessPlan := DisarmFault(storePath)
 		if v := safety("after " + op.String()); v != nil {
 			return classify(v)
 		}
 		lp, _ := node.syncer.GetLastProcessedBlock(bg)
+		if harnessPlan != nil {
+			ArmFault(storePath, harnessPlan)
+		}
 		rec.Event("after %s: parked=[%s] lp=%d head=%d fin=%d known=%d", op, w.ParkedDigest(), lp, chain.HeadNum(), chain.Finalized, l1.known)
 		rec.State(fmt.Sprintf("%d:%d:%s", int64(chain.HeadNum())-int64(lp), len(w.Parked()), w.ParkedDigest()))
 		return nil
